@@ -154,7 +154,7 @@ def build_configs(tier, seed):
     cfgs = []
 
     def add(name, fn=adaptive_config, **kw):
-        opts = dict(timeout=kw.pop('timeout', 600 if quick else 3000), maxpaths=kw.pop('maxpaths', 128 if quick else 2048),
+        opts = dict(timeout=kw.pop('timeout', 600 if quick else 1200), maxpaths=kw.pop('maxpaths', 128 if quick else 2048),
                     feas_ms=(1500, 3000) if quick else (3000, 20000), follow_nominal=kw.pop('nominal_path', False))
         cfgs.append(dict(name=name, fn=fn, kw=kw, opts=opts))
     # lines: every marked subset of a 3-cell mesh, two numberings, subdomains on every cell subset
@@ -186,11 +186,11 @@ def build_configs(tier, seed):
     # tetrahedra: longest-edge bisection with closure; one free vertex bounds the orderings
     for mk in ([[0], [1], [0, 1]]):
         add('tet2/free=4/marked=%s' % ''.join(map(str, mk)), mesh='tet2', marked=mk, free=None if quick else [4], nominal_path=quick, sub={'s0': [0], 's1': [1]}, bnd={'b': [0]},
-            timeout=600 if quick else 3000, maxpaths=64 if quick else 1024)
-    add('tet1/free=3/marked=0', mesh='tet1', marked=[0], free=None if quick else [3], nominal_path=quick, sub={'s0': [0]}, timeout=600 if quick else 3000)
+            timeout=600 if quick else 1200, maxpaths=64 if quick else 1024)
+    add('tet1/free=3/marked=0', mesh='tet1', marked=[0], free=None if quick else [3], nominal_path=quick, sub={"s0": [0]}, timeout=600 if quick else 1200)
     if not quick:
-        add('tet1/marked=0', mesh='tet1', marked=[0], sub={'s0': [0]}, timeout=3000, maxpaths=1024)
-        add('tet2/free=4/history', mesh='tet2', marked=None, free=[4], history=[[0], [1]], sub={'s0': [0]}, timeout=3000)
+        add('tet1/marked=0', mesh='tet1', marked=[0], sub={'s0': [0]}, timeout=1200, maxpaths=1024)
+        add('tet2/free=4/history', mesh='tet2', marked=None, free=[4], history=[[0], [1]], sub={"s0": [0]}, timeout=1200)
     # adaptive_theta
     for n in (3, 4) if quick else (3, 4, 5):
         for theta in (0.5, 0.25):
